@@ -12,6 +12,12 @@ CLAIMED = {
         text="Theorems C19_render_roundtrip / C19_render_pipeline_roundtrip: for every non-empty vector of NUL-free Unicode strings (any length, any characters) the modelled rendering evaluates under a POSIX-shell word model to exactly that vector, reserved words in command position included; the model is tied to the code by comparing the real Debug output with the model inside Coq on generated vectors, and the real output is evaluated by /bin/sh with the program in command position.",
         note="Trusted: Coq kernel; Lib/Sh.v as a model of sh (validated against /bin/sh each run); puredrive/childstub; the K=V env prefix of to_cmdline_lossy is outside the property.",
         design="5/C19"),
+    "C20": dict(
+        engine="E3-pure",
+        technique="Coq proof (induction over arguments with a backslash-run invariant; uniform in the doubled-quote rule) + source cut-out of the cfg(windows) functions compiled against a UTF-16 shim, compared with the Gallina model (vm_compute and extracted code)",
+        text="Theorem C20_cmdline_roundtrip: for every vector of UTF-16 strings that assemble_cmdline accepts, parsing the produced line with the Microsoft argument rules (C runtime 2008+, CommandLineToArgvW and the older runtime: uniform in the rule parameter) returns exactly the vector; NUL is rejected iff present; n backslashes before a quote / at the end come back as n for every n.  The functions' source text is cut out of popen.rs at build time, compiled on Linux and compared with the model; its output is parsed back by both reference parsers.",
+        note="Trusted: Coq kernel; Lib/MsParse.v encodes the documented parsing rules (no Windows runtime here; the documented example table is proved); build.rs cutter and UTF-16 shim; extraction for bulk cases (cross-checked against vm_compute).  The program-name rule is proved only for names without quote and backslash (C20_progname_roundtrip_partial).",
+        design="5/C20"),
 }
 
 ALL = ["C%02d" % i for i in range(1, 21)]
@@ -46,7 +52,7 @@ def main():
             "add_only": True,
         },
         "engines": [
-            {"name": "E3-pure", "path": "harness/src/bin/puredrive.rs", "serves_properties": ["C19"],
+            {"name": "E3-pure", "path": "harness/src/bin/puredrive.rs", "serves_properties": ["C19", "C20"],
              "kind_free_text": "pure differential: real function vs Gallina model evaluated by vm_compute"},
         ],
         "checks": checks,
